@@ -10,7 +10,7 @@ Record stored := {
 Record sent := {
   sn_query : query;                 (* the query parameters of the request *)
   sn_ctype : bytes;                 (* Content-Type *)
-  sn_body : bytes;                  (* request body ([] for the tree format: no model decoder here) *)
+  sn_body : bytes;                  (* request body *)
   sn_stored : stored
 }.
 Definition meta := (bytes * N * bytes * bytes)%type.     (* spy, rate, units, aggregation *)
@@ -25,7 +25,9 @@ Record case := {
   c_direct : option stored;
   c_go_groups : option (list (bytes * Z) * bool);   (* convert.ParseGroups on the groups body: callbacks, err == nil *)
   c_go_lines : option (list (bytes * N) * bool);    (* convert.ParseIndividualLines on the lines body, sorted by key *)
-  c_raw : option (bytes * (list (bytes * Z) * bool) * (list (bytes * N) * bool))   (* arbitrary body through both parsers *)
+  c_raw : option (bytes * (list (bytes * Z) * bool) * (list (bytes * N) * bool));  (* arbitrary body through both parsers *)
+  c_raw_groups : option stored;     (* the arbitrary body sent to /ingest as collapsed text; c_ms = what the client meant (may be []) *)
+  c_raw_lines : option stored       (* ... and with format=lines *)
 }.
 
 Definition from_multiset := profile_of.
@@ -124,6 +126,30 @@ Definition check_case (c : case) : verdict :=
         [ corr (negb (N.eqb (st_status (sn_stored s)) 200) || otree_eqb (tree_via_trie (sn_body s)) (st_tree (sn_stored s)))
                "tree built from the model's tt_deserialize/tt_iterate differs from the stored tree" ]
     | None => []
+    end ++
+    match c_tree c with
+    | Some s =>
+        [ corr (negb (N.eqb (st_status (sn_stored s)) 200) || otree_eqb (tree_via_tree (sn_body s)) (st_tree (sn_stored s)))
+               "tree decoded by the model's tc_deserialize_nodict differs from the stored tree" ]
+    | None => []
+    end ++
+    match c_raw c, c_raw_groups c with
+    | Some (body, _, _), Some s =>
+        let ok := N.eqb (st_status s) 200 in
+        [ (* all or nothing with respect to what the client wrote: either the whole profile, or a refusal and nothing stored *)
+          spec (is_nil (c_ms c) || (if ok then tree_is want s else match st_tree s with None => true | Some _ => false end))
+               "collapsed text: the request was acknowledged but the stored profile is not the body's profile (or refused yet stored)";
+          corr (Bool.eqb ok (snd (parse_groups body))) "parse_groups model and the handler disagree on accepting the body" ]
+    | _, _ => []
+    end ++
+    match c_raw c, c_raw_lines c with
+    | Some (body, _, _), Some s =>
+        [ corr (Bool.eqb (N.eqb (st_status s) 200) (snd (parse_lines body))) "parse_lines model and the handler disagree on accepting the body";
+          corr (negb (N.eqb (st_status s) 200) || match st_tree s with
+                                                 | Some _ => otree_eqb (tree_via_lines body) (st_tree s)
+                                                 | None => true end)
+               "tree built from the model's parse_lines differs from the stored tree (raw body)" ]
+    | _, _ => []
     end ++
     match c_raw c with
     | Some (body, g, l) =>
